@@ -50,6 +50,12 @@ def main():
         prop = meta.get("property", seed.split("-")[0])
         if props and prop not in props:
             continue
+        if "--skip-detected" in sys.argv and os.path.exists(os.path.join(sd, "result.json")):
+            try:
+                if json.load(open(os.path.join(sd, "result.json"))).get("detected"):
+                    continue
+            except Exception:
+                pass
         res = {"seed": seed, "property": prop, "repo_head": sh("git rev-parse --short HEAD", cwd=REPO)[1].strip(), "at": time.strftime("%Y-%m-%d %H:%M:%S")}
         wt = "/tmp/seedwt/" + seed
         sh("git worktree remove --force " + wt, cwd=REPO)
